@@ -172,6 +172,7 @@ func instants(c *core.Ctx, l *gen.LSXG) []time.Time {
 func TestClean(t *testing.T) {
 	rapid.Check(t, func(t *rapid.T) {
 		core.Run(t, "sxg/clean", func(c *core.Ctx) {
+			defer c.LocalZone("process")()
 			l := gen.DrawSXG(c, "sxg", 1)
 			c.Event("%s", l.Describe())
 			var pub *signedexchange.Exchange
@@ -937,7 +938,7 @@ func tamper(c *core.Ctx, w *world, l *gen.LSXG) (*signedexchange.Exchange, strin
 				c.Probe("edit on the publisher's object after Write")
 			}
 		}
-		ops := []string{"url", "status", "header-value", "header-add", "header-remove", "header-rename", "payload-bit", "payload-truncate-record", "payload-append", "payload-and-digest", "version", "payload-swap", "payload-recordsize"}
+		ops := []string{"url", "status", "header-value", "header-value-pad", "header-add", "header-remove", "header-rename", "payload-bit", "payload-truncate-record", "payload-append", "payload-and-digest", "version", "payload-swap", "payload-recordsize"}
 		if l.Version != "1b3" {
 			ops = append(ops, "method", "req-header-add")
 		}
@@ -957,6 +958,19 @@ func tamper(c *core.Ctx, w *world, l *gen.LSXG) (*signedexchange.Exchange, strin
 			ks := core.SortedKeys(map[string][]string(e.ResponseHeaders))
 			k := ks[c.Pick("field.hdr", len(ks))]
 			e.ResponseHeaders[k] = []string{e.ResponseHeaders[k][0] + "x"}
+		case "header-value-pad":
+			// optional whitespace added around a value (what a lenient proxy does): other bytes
+			ks := core.SortedKeys(map[string][]string(e.ResponseHeaders))
+			k := ks[c.Pick("field.hdr", len(ks))]
+			vs := append([]string(nil), e.ResponseHeaders[k]...)
+			j := c.Pick("field.hdrValue", len(vs))
+			pad := c.PickStr("field.pad", " ", "\t", "  ")
+			if c.Bool("field.padFront") {
+				vs[j] = pad + vs[j]
+			} else {
+				vs[j] += pad
+			}
+			e.ResponseHeaders[k] = vs
 		case "header-add":
 			// (names include the one header the format carries outside the signed map)
 			if nh := c.PickDict("field.newhdr", []string{"X-Injected", "Content-Security-Policy", "Link", "Signature", "signature", "SIGNATURE", "Digest2", "Content-Encoding2"}, core.HeaderNameRe); c.Bool("field.newhdrDirect") {
@@ -1116,6 +1130,29 @@ func judgeAccept(c *core.Ctx, w *world, e *signedexchange.Exchange, payload []by
 func TestTamper(t *testing.T) {
 	rapid.Check(t, func(t *rapid.T) {
 		core.Run(t, "sxg/tamper", func(c *core.Ctx) {
+			if c.Chance("liveWindow", 1, 60) {
+				// An exchange whose window contains the REAL present, verified at the zero
+				// time.Time (year 1): rejected, unless something substitutes the wall clock for
+				// the caller's clock reading. The library has no clock seam, so this is the second
+				// (and last) place where a run looks at real time; the date is kept out of the
+				// event log, and for code that never asks the clock the verdict does not depend on it.
+				l := gen.DrawSXG(c, "live", 1)
+				now := time.Now().Unix()
+				l.Date, l.Expires = now-1800, now+1800
+				if _, err := l.Sign(); err == nil {
+					net := newCertNet(c)
+					if e, rerr, _, _ := readFile(c, l.File, core.ReaderPlan{ErrAt: -1}); rerr == nil && e != nil {
+						for _, z := range []time.Time{{}, time.Time{}.In(time.FixedZone("", 3600)), time.Unix(0, 0)} {
+							if v := verify(c, e, z, net); v.ok && c.Oracle("C01") {
+								c.Violation("accepted-outside-window", "Exchange.Verify/zero-time", "verification at the zero time (or the epoch) succeeded for an exchange whose window is around the real present")
+							}
+						}
+					}
+				}
+				c.Fault("clock-reading-is-the-zero-time")
+				c.Outcome("nt:zero-time")
+				return
+			}
 			w := publish(c, c.Int("npub", 1, 3))
 			l := w.pubs[c.Pick("victim", len(w.pubs))]
 			if c.Bool("honestFirst") {
